@@ -29,10 +29,25 @@ def model():
 
 
 def _clause_props(c):
+    """Every property a contract serves: its own tags and the tags of each tagged clause, wherever
+    the clause sits (post, exceptional post, call assert, yield assert, ghost assert)."""
     out = set(c.prop)
-    for e in list(c.ensures) + list(c.ensures_exc):
-        if isinstance(e, tuple):
-            out |= set([e[1]] if isinstance(e[1], str) else e[1])
+
+    def tag(e):
+        if isinstance(e, tuple) and len(e) == 2 and isinstance(e[1], (str, list, tuple)):
+            t = [e[1]] if isinstance(e[1], str) else list(e[1])
+            if all(isinstance(x, str) and len(x) == 3 and x[0] == 'C' and x[1:].isdigit() for x in t):
+                out.update(t)
+    for e in list(c.ensures) + list(c.ensures_exc) + list(c.yield_asserts) + list(c.requires):
+        tag(e)
+    for lst in (c.call_asserts or {}).values():
+        for e in lst:
+            tag(e)
+    for d in (c.ghost_after or {}, c.ghost_before or {}):
+        for upd in d.values():
+            for g, e in upd:
+                if g in ('__assert__', '__assume__'):
+                    tag(e)
     return out
 
 
